@@ -11,6 +11,8 @@ mod check;
 mod driver;
 mod gen;
 mod interp;
+mod model;
+mod seq;
 mod oracle;
 mod payload;
 mod run;
